@@ -16,7 +16,7 @@ CLAIMED = {
    "Every DeviceAck drained from a connection is compared with a per-connection ledger of replies owed in request order (PUBACK/PUBREC/PUBCOMP/SUBACK codes/UNSUBACK/PINGRESP, PUBRELs separately), under seeded schedules that put requests into every pause state. Sampling, not proof.",
    ROUTER_NOTE, "deterministic simulation with seeded scheduler + request/ack ledger"),
  "C09": ("routersim", "exploration", "DESIGN.md 5.1, 6/C09",
-   "Window invariants (<=100 awaiting ack, non-zero unique ids) checked on every forward from the client's side under backlogs up to several hundred messages and all ack pacings; no-lost-wakeup: at quiescence (acks and drains only, no new stimulus) the whole backlog has been delivered. Sampling, not proof.",
+   "Window invariants (<=100 awaiting ack, non-zero unique ids) checked on every forward from the client's side under backlogs up to several hundred messages and all ack pacings; no-lost-wakeup: at quiescence (acks and drains only, no new stimulus) the whole backlog has been delivered. Retained replays (which take window slots) in a third of the runs; in another third one or two further clients misbehave (unsolicited acks and the rest of the rogue alphabet) and must be the only ones closed. The window invariants are also checked in C17 runs (shared subscriptions). Sampling, not proof.",
    ROUTER_NOTE, "deterministic simulation with seeded scheduler, invariants + bounded liveness at quiescence"),
  "C05": ("streamsim+clientsim", "exploration", "DESIGN.md 5.4, 6/C05, 12.5",
    "Seeded search over byte streams (valid frames from both crates' encoders, mutations, random bytes, fixed-header boundary cases) x chunking / Pending / EOF schedules over an in-memory AsyncRead for the four decoders; the stream wrapper (Framed, Network::read+readv) must yield exactly what repeated one-shot decoding of the delivered prefix yields, with independent fixed-header parsing for the consumed-length, oversize and needs-more rules. One run in 64 takes the oversize clause through the whole rumqttc client (clientsim): the scripted broker sends one frame above the client's incoming limit, which poll() must never surface, whatever limits the CONNACK carried. Sampling, not proof.",
@@ -32,18 +32,18 @@ CLAIMED = {
    "Retained-message history model (set / cleared / unspecified per topic, indexed by acceptance order); every forward flagged retain=1 must be the replay owed to a new non-shared subscription with a value held since that subscription was accepted; replay completeness at quiescence when it fits the window. Sampling, not proof.",
    ROUTER_NOTE, "deterministic simulation with seeded scheduler + retained-map reference model"),
  "C16": ("netsim+routersim", "fault_enumeration", "DESIGN.md 5.2, 6/C16",
-   "Full stack (real remote() task, Network, codecs, router on virtual time): for each seeded session of a client with a will, the connection is cut after EVERY byte offset of the session and, at frame boundaries, left silent until keep-alive expiry; the will must reach the watcher exactly once iff CONNECT was complete and no complete DISCONNECT was delivered; retain-as-registered checked at a later subscriber. The router half is additionally explored under the seeded scheduler (routersim) with a will ledger in the reference model.",
+   "Full stack (real remote() task, Network, codecs, router on virtual time): for each seeded session of a client with a will, the connection is cut after EVERY byte offset of the session and, at frame boundaries, left silent until keep-alive expiry; the will must reach the watcher exactly once iff CONNECT was complete and no complete DISCONNECT was delivered; retain-as-registered checked at a later subscriber. Variants per seeded session: nobody subscribed to the will topic until afterwards (only the retained copy is observable), the same client id living a second time without a will and being cut (no will may appear), an empty client id (broker-assigned), every encoding of an MQTT 5 DISCONNECT (no body, reason code only, empty properties, user property, reason string), a refused CONNECT with a will beforehand. The router half is additionally explored under the seeded scheduler (routersim) with a will ledger in the reference model.",
    "Trusted: netsim harness (duplex transport, scripted clients using rumqttc codecs, paused tokio clock), the reference predicate for 'DISCONNECT processed'. Will-delay 0 only; takeover-before-will histories are excluded as the statement says.",
    "deterministic simulation on virtual time, crash points (cut offsets) enumerated per seeded session"),
  "C17": ("routersim", "exploration", "DESIGN.md 5.1, 6/C17",
-   "Ledger per (group, message): forwarded to at most one member, never twice (except at-least-once redelivery after an unacknowledged recipient left), per-member order, never to a non-member after it left, completeness at quiescence incl. forwards left in dead members' buffers; three strategies with the Random one driven by the choice stream. Sampling, not proof.",
+   "Ledger per (group, message): forwarded to at most one member, never twice (except at-least-once redelivery after an unacknowledged recipient left), per-member order, never to a non-member after it left, completeness at quiescence incl. forwards left in dead members' buffers; three strategies with the Random one driven by the choice stream; members may repeat their SUBSCRIBE; bursts large enough to fill a member's window, with C09's window invariants checked on every forward. Sampling, not proof.",
    ROUTER_NOTE, "deterministic simulation with seeded scheduler + group ledger"),
  "C19": ("netsim", "exploration", "DESIGN.md 5.2, 6/C19",
-   "Seeded connection-attempt histories against the real per-connection task (mqtt_connect, handle_auth, RemoteLink::new, router admission) on a v4 or v5 listener with four authentication configurations and small connection limits; a reference admission predicate decides each attempt (left open only where static and external credentials disagree), a witness observes whether a refused connection's SUBSCRIBE/PUBLISH had any effect, router snapshot invariants (distinct client ids, <= max_connections) after each attempt. Sampling, not proof.",
+   "Seeded connection-attempt histories against the real per-connection task (mqtt_connect, handle_auth, RemoteLink::new, router admission) on a v4 or v5 listener with four authentication configurations and small connection limits; a reference admission predicate decides each attempt (left open only where static and external credentials disagree), a witness observes whether a refused connection's SUBSCRIBE/PUBLISH had any effect, router snapshot invariants (distinct client ids, <= max_connections) after each attempt; the login alphabet contains near misses of listed passwords (prefix, extension, empty, other case). Sampling, not proof.",
    "Trusted: netsim harness, the reference predicate. Empty client ids get a UUID (not seamed: only accept/reject is judged).",
    "deterministic simulation on virtual time + reference predicate"),
  "C20": ("netsim", "exploration", "DESIGN.md 5.2, 6/C20",
-   "Publisher and subscriber on every pair of protocol versions through the real listeners' connection tasks; every subset of the 7 publish properties, publisher and broker topic aliases, subscription identifiers, QoS 0-2 handshakes, PINGRESP/SUBACK/UNSUBACK/DISCONNECT-with-reason notifications; the subscriber decodes the broker's bytes with the client codec of its version: same topic and payload, properties preserved towards v5 and absent towards v4, no connection task panics, no zombie registration. Sampling, not proof.",
+   "Publisher and subscriber on every pair of protocol versions through the real listeners' connection tasks; every subset of the 7 publish properties, publisher and broker topic aliases, subscription identifiers, QoS 0-2 handshakes, PINGRESP/SUBACK/UNSUBACK/DISCONNECT-with-reason notifications; the subscriber decodes the broker's bytes with the client codec of its version: same topic and payload, properties preserved towards v5 and absent towards v4, no connection task panics, no zombie registration. One QoS 2 release may be held back over later publishes (release order = publish order) with alias re-bindings in between; a subscriber with broker-assigned aliases changes its subscriptions and comes back; received aliases are judged against the topic-alias-maximum the subscriber announced (with a receive-maximum next to it in half of the v5 runs). Sampling, not proof.",
    "Trusted: netsim harness; rumqttc codecs as the decoding oracle on the client side.",
    "deterministic simulation on virtual time + differential decode at the subscriber's transport"),
  "C13": ("logsim", "exploration", "DESIGN.md 5.5, 6/C13",
@@ -57,13 +57,13 @@ CLAIMED = {
    "Same harness. Wire-level and state-level invariants after every packet and poll: non-zero ids within the configured limit, no id shared by two simultaneously unacknowledged flows (incl. the PUBREL phase), inflight() and the broker-side count of unanswered publishes never above the (negotiated) limit and never below what the wire holds, no NEW user request on the wire while the window is certainly full or a collision is parked, a parked collision only while its id is held, and bounded liveness: once the broker has answered everything, requests still queued reach the wire within 1 simulated second. Inflight limits 1..65535, receive-maximum lowered and raised between connections. Sampling, not proof.",
    CLIENT_NOTE, "deterministic simulation on virtual time + wire/state invariants + bounded liveness after faults stop"),
  "C10": ("clientsim", "exploration", "DESIGN.md 5.3, 6/C10, 12.6",
-   "Same harness with a hostile broker script: every packet type and id (valid, unsolicited, repeated, above the limit), batches of 0-12 packets per read, v5 reason codes, topic aliases, server DISCONNECT, manual_acks on/off. Oracle per poll result and per wire packet: Incoming events equal the broker's packets exactly once in wire order; each surfaced QoS1/2 publish and known PUBREL has its PUBACK/PUBREC/PUBCOMP on the wire (none with manual acks, only what the user requested); unsolicited acks end in a state error before any later packet is surfaced; Outgoing notifications and written packets match one to one in kind and id; any panic of the client is a violation. Sampling, not proof.",
+   "Same harness with a hostile broker script: every packet type and id (valid, unsolicited, repeated, above the limit), batches of 0-12 packets per read, v5 reason codes, topic aliases, server DISCONNECT, manual_acks on/off. Oracle per poll result and per wire packet: Incoming events equal the broker's packets exactly once in wire order; each surfaced QoS1/2 publish and known PUBREL has its PUBACK/PUBREC/PUBCOMP on the wire (none with manual acks, only what the user requested); unsolicited acks end in a state error before any later packet is surfaced (and the packet handled last must carry the id the error names: handled packets may not vanish from the event queue); Outgoing notifications and written packets match one to one in kind and id; DUP re-deliveries are answered like first deliveries; a publish naming a topic alias nobody established must be answered with a DISCONNECT; any panic of the client is a violation (rumqttc is built with overflow checks). Sampling, not proof.",
    CLIENT_NOTE, "deterministic simulation on virtual time with a fault-injecting (protocol-violating) peer"),
  "C11": ("clientsim", "fault_enumeration", "DESIGN.md 5.3, 6/C11, 12.6",
    "Same harness and the same cut-offset enumeration as C02 (every byte offset of both streams of each seeded history, further seeded cuts during the replay). On the connection after a failure: with session present every carried-over publish is retransmitted with its original id and content before any request issued after the failure reaches the wire, and - MQTT 3.1.1, QoS 1, broker acknowledging in order - in the order of first transmission even across id wrap-around; with no session none of the carried-over requests is sent and a fresh request issued afterwards is on the wire within 1 simulated second.",
    CLIENT_NOTE, "deterministic simulation on virtual time, crash points (cut offsets) enumerated per seeded history"),
  "C18": ("clientsim", "exploration", "DESIGN.md 5.3, 6/C18, 12.6",
-   "Same harness, only virtual time matters: keep-alive K from 1 s to hours and 0, broker PINGRESP delays anywhere in [0, K), other traffic in either direction only, the broker going silent (answers nothing / half-open / stops reading so that writes stall) at a seeded instant, connects that never complete (no CONNACK, partial CONNACK, hanging transport connect). Oracle on the simulated clock: a PINGREQ at least once per K on an established connection, an error from poll() no later than 2K after the broker went silent (plus the flush timeout when writes stall), never a keep-alive error while every PINGREQ is answered within K, no PINGREQ ever with K=0 over 600 s, connect failures reported as timeouts at the configured connection timeout. Sampling, not proof.",
+   "Same harness, only virtual time matters: keep-alive K from 1 s to hours and 0, broker PINGRESP delays anywhere in [0, K), other traffic in either direction only, the broker going silent (answers nothing / half-open / stops reading so that writes stall) at a seeded instant, connects that never complete (no CONNACK, partial CONNACK, hanging transport connect). Oracle on the simulated clock: a PINGREQ at least once per K on an established connection, an error from poll() no later than 2K after the broker went silent (plus the flush timeout when writes stall), never a keep-alive error while every PINGREQ is answered within K, no PINGREQ ever with K=0 over 600 s, connect failures reported as timeouts at the configured connection timeout. Further run shapes: the broker comes back after the silence was reported and the next connection is judged like a first one; an injected connection failure in an answered run (optionally right after a PINGREQ); busy runs (request channel never empty, user loop pausing up to K/200 between polls, ping due within 1.5 K); poll-gap runs (the user loop pauses up to K/2 right before a ping is due, answers take up to K - 50 ms); an MQTT 5 server keep-alive in the CONNACK; a window of 3 with acks that never come. Sampling, not proof.",
    CLIENT_NOTE, "deterministic simulation on virtual (discrete-event) time with silent / stalled / half-open peer faults"),
 }
 
